@@ -8,6 +8,8 @@
 From Coq Require Export String Ascii.
 From Coq Require Import List NArith ZArith Bool.
 From Evm Require Export SigWrap HdPath Eip712Enc CorrBase.
+(* tymap_ok / doc_parts: the side conditions of C19_render_injective_or_collision_partial, evaluated on every case *)
+From Evm Require Import Eip712EncProofs.
 Import ListNotations.
 Open Scope N_scope.
 
@@ -191,6 +193,8 @@ Definition all_ascii_types (T : tymap) : bool :=
   forallb (fun e => forallb (fun c => c <? 128) (fst e) &&
                     forallb (fun f => forallb (fun c => c <? 128) (fst f) && forallb (fun c => c <? 128) (snd f)) (snd e)) T.
 
+Definition is_some {A} (o : option A) : bool := match o with Some _ => true | None => false end.
+
 Definition crypto_ok (c : ccase) : bool :=
   match c with
   | CVerify msg sig e712 tbl obs =>
@@ -236,11 +240,24 @@ Definition crypto_ok (c : ccase) : bool :=
     beqb (amino_enc pub key) obs && obeqb (amino_dec pub obs) (amino_unmarshal pub key)
   | CAminoDec pub bz obs => obeqb (amino_unmarshal pub bz) obs
   | CEip doc obs =>
-    if keys_ok doc then obeqb (render keccak256 doc) obs else true
+    if keys_ok doc then
+      obeqb (render keccak256 doc) obs &&
+      match obs with
+      | Some _ =>       (* a rendered document: its derived type map meets the hypotheses of the injectivity theorem *)
+        match doc_parts doc with
+        | Some (_, T, _) => tymap_ok T && is_some (assoc TX T) && is_some (assoc EIP712DOMAIN T)
+        | None => false
+        end
+      | None => true
+      end
+    else true
   | CTyped T prim dom msg obs =>
     match dom, msg with
     | JObj d, JObj m =>
-      if all_ascii_types T then obeqb (typed_message_hash keccak256 T prim d m) obs else true
+      if all_ascii_types T then
+        obeqb (typed_message_hash keccak256 T prim d m) obs &&
+        match obs with Some _ => tymap_ok T && is_some (assoc prim T) && is_some (assoc EIP712DOMAIN T) | None => true end
+      else true
     | _, _ => false
     end
   end.
